@@ -413,6 +413,54 @@ def r15_5(ctx, R):
                                             det += " behind `%s %s %s` = %s" % (expr_str(a_), op, kv, lab[2])
             ctx.ob("R15.5", b, "group-capacity>=1@%s" % _site_label(b, bb), ok, b.loc(bb), det)
     ctx.floor("R15.5", "group-construction-sites", n, 5)
+    # a group that comes from outside (a bounded collection handed to a function of the unbounded type: `From<Bounded>`,
+    # `adopt(group)`, `extend_groups(..)`) has whatever capacity its owner gave it -- 0 included: it may become a group only
+    # behind a test that its capacity is >= 1
+    BND = r"(futures_unordered_bounded::FuturesUnorderedBounded|merge_bounded::MergeBounded)<"
+    k = 0
+    for b in ctx.facts.fn_bodies():
+        if b.kind == "Closure" or not re.search(r"^(<)?(futures_unordered::FuturesUnordered|merge_unbounded::MergeUnbounded)", b.path):
+            continue
+        fl = ctx.flow(b)
+        for pi in range(1, b.arg_count + 1):
+            ty = b.locals[pi] or ""
+            if not re.search(BND, ty) or ty.startswith("&"):
+                continue
+            # ... moved whole into an array / Vec / struct literal (not consumed through its own API)
+            adopted = []
+            for bb in range(b.n):
+                if b.is_cleanup(bb):
+                    continue
+                for s_ in b.stmts(bb):
+                    if s_["k"] == "assign" and s_["rv"]["k"] == "aggregate" and s_["rv"].get("agg") != "closure":
+                        if any(o["k"] in ("move", "copy") and not o["place"]["p"] and strip_refs(fl.operand_expr(o)) == ("param", pi)
+                               for o in s_["rv"]["ops"]):
+                            adopted.append(bb)
+                t_ = b.term(bb)
+                if t_["k"] == "call" and re.search(r"alloc::vec::Vec::<.*>::(push|insert)$", fn_name((t_["func"].get("fn"))) or ""):
+                    if strip_refs(fl.operand_expr(t_["args"][-1])) == ("param", pi):
+                        adopted.append(bb)
+            if not adopted:
+                continue
+            k += 1
+            ok = False
+            for sb in range(b.n):
+                for tgt, labs in fl.edge_labels(sb).items():
+                    for lab in labs:
+                        if lab[0] != "bool" or lab[1][0] != "binop":
+                            continue
+                        op, a_, k_ = lab[1][1], strip_refs(lab[1][2]), lab[1][3]
+                        if a_[0] == "call" and (a_[1] or "").endswith("::capacity") and a_[2] and strip_refs(a_[2][0]) == ("param", pi) and k_[0] == "const":
+                            kv = int(k_[2])
+                            pos = (op == "Gt" and kv >= 0 and lab[2]) or (op == "Ge" and kv >= 1 and lab[2]) or (op == "Ne" and kv == 0 and lab[2]) or \
+                                  (op == "Eq" and kv == 0 and not lab[2]) or (op == "Le" and kv == 0 and not lab[2]) or (op == "Lt" and kv == 1 and not lab[2])
+                            # every use of the parameter as a group lies behind that edge
+                            # every place where the parameter becomes a group lies behind that edge
+                            if pos and len(b.pred[tgt]) == 1 and all(b.dominates(tgt, ab) for ab in adopted):
+                                ok = True
+            ctx.ob("R15.5", b, "adopted-group-has-capacity>=1:param%d" % pi, ok, d_loc(b),
+                   "a %s received by value becomes part of the unbounded collection; capacity tested >= 1 first: %s" % (ty.split("<")[0].split("::")[-1], ok))
+    ctx.ob("R15.5", "<crate>", "functions adopting foreign groups examined", True, "", "%d" % k)
 
 
 def run(ctx):
